@@ -63,6 +63,12 @@ def run(ck):
     c08._joined_row(RuleView(ck, {"C08.6": "C02.12"}, only_constructs=(":reverseStrand",)))
     n = R.run_role_rule(ck, "C02.3", modules={"src.alignment.alignment_results", "src.alignment.aligner"})
     ck.floor("C02 role bindings judged", n, 40)
+    # (listed last: what this borrowed rule cannot read must not keep the property's own rules from reporting)
+    ck.clause("C02.16", "a joined record is handed back only if it is collinear (as C01.20): QryStartPos / QryEndPos are taken from the first and "
+                        "last pair in reference order - for parts swapped in the query neither is the offset of an outermost aligned label")
+    if ck.wants("C02.16"):
+        from .c01 import joined_is_collinear as _jic02
+        _jic02(RuleView(ck, {"C01.20": "C02.16"}), "C01.20")
 
 
 # ---------------------------------------------------------------------------------------------------------- C02.11
